@@ -3,7 +3,7 @@ CONSTANTS
   Annots <- AnTiny
   OvChoices <- OvSmall
   DfChoices <- DfImpl
-  SpChoices <- SpBoth
+  SpChoices <- SpNone
   BoundVals = {24}
   MaxFuncs = 2
   MaxParams = 2
